@@ -508,4 +508,7 @@ class Den:
 
 def den(prog: Prog, ctx: avm.Ctx | None = None, version=10):
     d = Den(prog, ctx or avm.Ctx(mode=prog.mode), version)
-    return d.run()
+    r = d.run()
+    # final contents of the top-level variables (used for the user-numbered slots clause of C03 / C10)
+    r.gvals = {name: d.cells[d.genv[name]] for name, _, _ in prog.gvars}
+    return r
